@@ -1066,6 +1066,16 @@ def rule_hash(prop, repo, cv, paths_):
                                 cells = be_integer(x)
                                 ok = cells is not None and padded_input(cells, n)
                     for dv in dvs:
+                        if isinstance(dv, T) and dv[0] == "call" and dv[1].endswith(" as core::ops::Deref>::deref") and len(dv[3]) == 1 and isinstance(dv[3][0], T) and dv[3][0][0] == "static":
+                            # computed once and kept in a lazy static: the value its initialiser returns
+                            sv = repo.static_values().get(dv[3][0][1])
+                            if sv and sv.get("body") is not None:
+                                try:
+                                    souts = [so for so in cv._machine().run(sv["body"], []) if so.kind == "return"]
+                                except Exception:
+                                    souts = []
+                                if len(souts) == 1:
+                                    dv = strip_newtypes(souts[0].value) if not isinstance(souts[0].value, T) else souts[0].value
                         good = isinstance(dv, T) and dv[0] == "conv" and dv[1] == ap and dv[2] == U256 and isinstance(dv[3], T) and dv[3][0] == "call" and dv[3][1].split("::")[-1] == "neg" \
                             and isinstance(dv[3][3][0], T) and dv[3][3][0][0] == "call" and dv[3][3][0][1].split("::")[-1] == "one"
                         if not good:
